@@ -41,11 +41,11 @@ def run(cx):
     t_lines = cx.func(REL, "_PPTableParsedFmt._parse_vis_lines_fmt", "R13c")
     cx.assume("field names and format modifiers contain none of the format's punctuation (: / ! < > ( ) - , ; *) and are not blank")
 
-    _columns(cx, repo, writer, reader)
-    _slots(cx, repo, rc_init, writer)
-    _table(cx, repo, t_writer, t_reader_init, t_split, t_lines)
-    _empty_format(cx, repo)
-    _skipped_flag(cx, repo)
+    cx.guard(_columns, cx, repo, writer, reader)
+    cx.guard(_slots, cx, repo, rc_init, writer)
+    cx.guard(_table, cx, repo, t_writer, t_reader_init, t_split, t_lines)
+    cx.guard(_empty_format, cx, repo)
+    cx.guard(_skipped_flag, cx, repo)
 
 
 # ------------------------------------------------------------------------------------------ R13a
